@@ -821,7 +821,21 @@ impl Dag {
 /// differ in the sign of a computed zero, so irregular points are outside
 /// what the value-comparing oracles may demand.
 pub fn regular_point(d: &Dag, reach: &[bool], vals: &[f32]) -> bool {
-    let no_nan = vals.iter().zip(reach).all(|(v, r)| !*r || !v.is_nan());
+    regular_point_ex(d, reach, vals, false)
+}
+
+/// [`regular_point`] with the NaN clause optional: at the very point a
+/// *point* trace was recorded no interval enclosure is involved, so NaN
+/// intermediates are within the claim there; the sign-of-zero / pole clauses
+/// stay (evaluator kinds may still part ways at such operations).
+pub fn regular_point_ex(
+    d: &Dag,
+    reach: &[bool],
+    vals: &[f32],
+    allow_nan: bool,
+) -> bool {
+    let no_nan =
+        allow_nan || vals.iter().zip(reach).all(|(v, r)| !*r || !v.is_nan());
     // Within rounding distance of a discontinuity or pole an ulp-level
     // difference between evaluators (libm's transcendental functions are not
     // monotone to the last bit: atan2f(0.05, -1.4e-14) < atan2f(0.05, -0.0))
